@@ -358,7 +358,9 @@ def c16(tier, repo=None):
     INTR = dict(pu=3, ms=3, mn=2, mp=1, w=2, types=("T1", "T2", "cb"), nc=2, mco=2, cw=3, intr=True)
     # option bundles of 1..3 values, both call paradigms, one node (leaf or nested graph) behind WithInputKey
     KB = dict(pu=2, ms=2, mn=2, mp=2, w=2, types=("T1", "T2", "cb"), nc=1, mco=2, cw=2, bundle=3, modes=("invoke", "stream"), keyed=True)
-    BMK = dict(bundle=3, modes=("invoke", "stream"), keyed=True)
+    BMK = dict(bundle=3, modes=("invoke", "stream", "collect", "transform"), keyed=True)
+    # two nested graphs whose inner node has the same key; callbacks options designated to both inner paths in one list
+    TS = dict(tree="twosub", pu=2, ms=2, mn=1, mp=2, w=2, types=("cb", "T1"), nc=1, mco=2, cw=2, modes=("invoke", "collect"))
     INTRGEN = dict(pu=3, ms=5, mn=3, mp=2, w=3, types=("T1", "T2", "cb"), nc=2, mco=3, cw=5, mins=2, intr=True)
     # 1. model level
     if thorough:
@@ -367,9 +369,9 @@ def c16(tier, repo=None):
                  ("std-2calls", dict(pu=0, ms=5, nc=2, mco=2, cw=3, types=("T1", "cb"))),
                  ("par-cb8", PAR), ("std-breadth2-chain", dict(kind="chain", **KIND)), ("std-breadth2-workflow", dict(kind="workflow", **KIND)),
                  ("std-intr", INTR), ("deep-intr", dict(tree="deep", kind="chain", **INTR)),
-                 ("std-bundle-keyed", KB), ("deep-bundle-keyed", dict(tree="deep", kind="chain", **KB))]
+                 ("std-bundle-keyed", KB), ("deep-bundle-keyed", dict(tree="deep", kind="chain", **KB)), ("twosub", TS)]
     else:
-        fixed = [("std-chain6", dict(pu=0, ms=6, mco=2, cw=3)), ("std-breadth2", dict(kind="chain", **KIND)), ("par-cb8", PAR), ("std-intr", INTR), ("std-bundle-keyed", KB)]
+        fixed = [("std-chain6", dict(pu=0, ms=6, mco=2, cw=3)), ("std-breadth2", dict(kind="chain", **KIND)), ("par-cb8", PAR), ("std-intr", INTR), ("std-bundle-keyed", KB), ("twosub", TS)]
     jobs = [(lambda n=n, kw=kw: cb.opt_model(n, fix=True, workers=2, timeout=1700 if thorough else 170, **kw)) for n, kw in fixed]
     # seeded variants of the model: the rule must reject them (sanity of rule + model; else inconclusive)
     jobs.append(lambda: cb.opt_model("par-cb8", fix=True, cbfix=False, workers=1, timeout=170, **PAR))
@@ -377,20 +379,22 @@ def c16(tier, repo=None):
     jobs.append(lambda: cb.opt_model("std-intr", fix=True, restoredrops=True, workers=1, timeout=170, **INTR))
     jobs.append(lambda: cb.opt_model("std-bundle-keyed", fix=True, firstonly=True, workers=1, timeout=170, **KB))
     jobs.append(lambda: cb.opt_model("std-bundle-keyed", fix=True, keyeddrops=True, workers=1, timeout=170, **KB))
+    jobs.append(lambda: cb.opt_model("twosub", fix=True, deduphead=True, workers=1, timeout=170, **TS))
     jobs.append(lambda: cb.opt_model("std-chain6", fix=False, workers=1, timeout=170, pu=0, ms=6, mco=2, cw=3))
-    runs = _par(jobs, 3)
+    runs = _par(jobs, 4)
     states = trans = 0
     model_runs = []
-    for what, vr in (("AppendHandlers appends in place (handler slice aliasing between parallel designated nodes)", runs[-6]),
-                     ("nested graph recognised by component == Graph (Chain / Workflow sub-graphs miss undesignated options)", runs[-5]),
-                     ("restoreTasks does not hand the resuming call's options to the tasks rebuilt from the checkpoint", runs[-4]),
-                     ("a designated component option reaches its node with opt.options[0] only", runs[-3]),
-                     ("the stream wrapper of a node with an input key calls the inner transform without opts", runs[-2])):
+    for what, vr in (("AppendHandlers appends in place (handler slice aliasing between parallel designated nodes)", runs[-7]),
+                     ("nested graph recognised by component == Graph (Chain / Workflow sub-graphs miss undesignated options)", runs[-6]),
+                     ("restoreTasks does not hand the resuming call's options to the tasks rebuilt from the checkpoint", runs[-5]),
+                     ("a designated component option reaches its node with opt.options[0] only", runs[-4]),
+                     ("the stream wrapper of a node with an input key calls the inner transform without opts", runs[-3]),
+                     ("samePathBefore ignores the nested graph's key (same inner key under two nested graphs taken for a repeat)", runs[-2])):
         if vr.timed_out or vr.error != "invariant:RuleOK":
             raise Inconclusive("C16 model variant '%s' should violate RuleOK: TLC reported %s\n%s" % (what, vr.error, vr.stdout[-1500:]))
         model_runs.append({"model": "Options/seeded variant: " + what, "distinct": vr.distinct, "wall_s": round(vr.wall_s, 1),
                            "result": "RuleOK violated, as it must be"})
-    for (n, kw), run in zip(fixed, runs[:-6]):
+    for (n, kw), run in zip(fixed, runs[:-7]):
         vlib.tlc_must_pass(run, "C16 model (with repair) %s" % n)
         states += run.distinct
         trans += run.generated
@@ -413,25 +417,25 @@ def c16(tier, repo=None):
                 ("breadth-wf", dict(pu=2, ms=7, mn=2, mp=2, w=3, types=ALLT, nc=1, mco=3, cw=4, mins=2, kind="workflow"), "num=2000", 4000),
                 ("twocalls", dict(pu=2, ms=7, mn=2, mp=2, w=3, types=ALLT, nc=2, mco=3, cw=5, mins=3, kind="workflow"), "num=4000", 8000),
                 ("deep", dict(tree="deep", pu=2, ms=6, mn=2, mp=2, w=3, types=ALLT, nc=2, mco=2, cw=4, mins=2, kind="chain", **BMK), "num=3000", 6000),
-                ("par", PAR, None, 4000), ("parbig", PARBIG, "num=3000", 6000),
+                ("par", PAR, None, 4000), ("parbig", PARBIG, "num=3000", 6000), ("twosub", TS, None, 6000),
                 ("intr", INTRGEN, "num=3000", 6000), ("intr-deep", dict(tree="deep", kind="chain", **INTRGEN), "num=2000", 4000),
                 ("intr-wf", dict(kind="workflow", **INTRGEN), "num=1500", 3000)]
     else:
         # nested graphs: chain6 plain Graph, breadth Chain, twocalls Workflow, deep Chain (nested twice)
-        gens = [("chain6", dict(pu=1, ms=6, mins=5, mco=2, cw=3, modes=("invoke", "stream")), "num=1000", 2000),
+        gens = [("chain6", dict(pu=1, ms=6, mins=5, mco=2, cw=3, modes=("invoke", "stream", "collect", "transform")), "num=500", 1000),
                 ("breadth", dict(pu=2, ms=6, mn=2, mp=2, w=3, types=ALLT, nc=1, mco=3, cw=4, mins=2, kind="chain", **BMK), "num=400", 800),
                 ("breadth-g", dict(pu=2, ms=5, mn=2, mp=2, w=3, types=ALLT, nc=1, mco=3, cw=4, mins=2, **BMK), "num=400", 800),
-                ("twocalls", dict(pu=2, ms=7, mn=2, mp=2, w=3, types=ALLT, nc=2, mco=3, cw=5, mins=3, kind="workflow", bundle=3, modes=("invoke", "stream")), "num=400", 800),
+                ("twocalls", dict(pu=2, ms=7, mn=2, mp=2, w=3, types=ALLT, nc=2, mco=3, cw=5, mins=3, kind="workflow", bundle=3, modes=("invoke", "stream", "collect", "transform")), "num=400", 800),
                 ("deep", dict(tree="deep", pu=2, ms=6, mn=2, mp=2, w=3, types=ALLT, nc=2, mco=2, cw=4, mins=2, kind="chain", **BMK), "num=300", 600),
                 # three parallel leaves; handlers: 0..6 separate undesignated WithCallbacks options + options designated to p1 / p2; exhaustive
-                ("par", PAR, None, 3300),
+                ("par", PAR, None, 3300), ("twosub", TS, None, 1500),
                 # interrupted run + resuming call: plain nested Graph, and Chains nested twice
-                ("intr", INTRGEN, "num=250", 500), ("intr-deep", dict(tree="deep", kind="chain", **INTRGEN), "num=180", 360)]
+                ("intr", INTRGEN, "num=150", 300), ("intr-deep", dict(tree="deep", kind="chain", **INTRGEN), "num=110", 220)]
 
     def gen(name, kw, sim, limit):
         cs, run = cb.opt_generate(name, simulate=sim, depth=25 if sim else None, seed=S if sim else None, workers=2, timeout=1500 if thorough else 170, **kw)
         return name, kw, sim, limit, cs, run
-    res = _par([(lambda g=g: gen(*g)) for g in gens], 2)
+    res = _par([(lambda g=g: gen(*g)) for g in gens], 3)
     cases, fams = [], []
     for name, kw, sim, limit, cs, run in res:
         total = len(cs)
